@@ -637,6 +637,37 @@ func runC16(p *eng.Prog, r *eng.Report, tier string) {
 		}
 		c.r.Check("C16.4", f, "uses the escape set", "Span and Transform search for the same characters", f.Pos(), okE, "IndexAny with another set")
 	}
+	// Span decides with no table that Transform does not decide with: a Span
+	// that consults an extra table (the escape mapping's Span looking at what
+	// FOLLOWS a backslash) reports "nothing to rewrite" for text that Transform
+	// rewrites
+	tables := map[string]bool{"jid.shouldUnescape": true, "jid.ishex": true, "jid.unhex": true, "bytes.IndexAny": true, "bytes.IndexRune": true, "bytes.IndexByte": true, "bytes.Index": true, "bytes.ContainsAny": true, "strings.IndexByte": true, "strings.IndexAny": true}
+	used := func(f *eng.Fn) map[string]bool {
+		out := map[string]bool{}
+		for _, cl := range f.AllCalls() {
+			if id := f.CalleeID(cl); tables[id] {
+				out[id] = true
+			}
+		}
+		return out
+	}
+	for _, pr := range []struct {
+		span, tr *eng.Fn
+		what     string
+	}{{es, et, "escape"}, {us, ut, "unescape"}} {
+		if pr.span == nil || pr.tr == nil {
+			continue
+		}
+		tu := used(pr.tr)
+		var extra []string
+		for k := range used(pr.span) {
+			if !tu[k] {
+				extra = append(extra, k)
+			}
+		}
+		sort.Strings(extra)
+		c.r.Check("C16.4", pr.span, "Span decides with Transform's tables only", "T: every table / search function the "+pr.what+" mapping's Span consults is consulted by its Transform too", pr.span.Pos(), len(extra) == 0, "Span also consults "+strings.Join(extra, ", ")+": it can call text unchanged that Transform rewrites (or the reverse)")
+	}
 }
 
 // c16Commit: the source position moves past an escaped character / escape
